@@ -49,6 +49,14 @@ impl Check for StepCheck {
                 }
                 continue;
             }
+            if rng.below(5) == 0 {
+                // a long mixed history judged call by call (states reached by realistic traffic)
+                let n = 5 + rng.usize(if c * l > 400 { 10 } else { 40 });
+                let ops = crate::checks::histories::mixed_history(&mut rng, c, l, n, true);
+                crate::engine::judge_session(cx, self.id, &self.owns, c, l, &ops);
+                cx.stats.count("sessions", 1);
+                continue;
+            }
             let setup = gen::setup(&mut rng, c, l, &prof);
             if let Some((base, pre)) = reach(cx, c, l, &setup) {
                 cx.stats.count("zoo_states", 1);
@@ -58,7 +66,11 @@ impl Check for StepCheck {
         }
     }
     fn replay(&self, case: &Case, cx: &mut Ctx) {
-        replay_step(cx, self.id, &self.owns, case);
+        if case.kind == "session" {
+            crate::engine::judge_session(cx, self.id, &self.owns, case.columns, case.lines, &case.ops);
+        } else {
+            replay_step(cx, self.id, &self.owns, case);
+        }
     }
 }
 
@@ -500,6 +512,12 @@ fn c08_cands(rng: &mut Rng, _pre: &Snap, _t: Tier) -> Vec<Cand> {
     // parser-only spellings with empty parameters
     for s in ["\x1b[mx", "\x1b[;mx", "\x1b[;;1mx", "\x1b[1;;mx", "\x1b[38;5mx", "\x1b[38;;5;1mx", "\u{9b}31mx"] {
         v.push(Cand { ops: vec![Op::Feed(s.into())] });
+    }
+    // an abandoned or skipped control sequence before the SGR must leave nothing behind
+    for pre in ["\x1b[1;4\x18", "\x1b[7;\x1a", "\x1b[1;1;5;5;1$r", "\x1b[38;5;", "\x1b[38;5;\x18", "\x1b[4;9z", "\x1b]4;1;rgb:ff/00/00\x07", "\x1b[?1;5\x18"] {
+        let code = *rng.pick(&SGR_DOC);
+        v.push(Cand { ops: vec![Op::Feed(format!("{}\x1b[{}mx", pre, code))] });
+        v.push(Cand { ops: vec![Op::Feed(pre.to_string()), Op::Feed(format!("\x1b[3;{}mx", code))] });
     }
     v
 }
@@ -1080,6 +1098,22 @@ fn c18_cands(rng: &mut Rng, pre: &Snap, _t: Tier) -> Vec<Cand> {
         }
         v.push(Cand { ops });
     }
+    // a stop (HTS-set or default) must survive narrowing and widening, also with content on screen
+    for _ in 0..4 {
+        let wide = c + 4 + rng.range(0, 20);
+        let stop = rng.range(c, wide - 1);
+        let mut ops = vec![Op::Api(Draw("t".into())), Op::Api(Resize(None, Some(wide))), Op::Api(CursorToColumn(Some(stop + 1))), Op::Api(SetTabStop)];
+        ops.push(Op::Api(Resize(None, Some(rng.range(1, c)))));
+        if rng.bool() {
+            ops.push(Op::Api(Draw("n".into())));
+        }
+        ops.push(Op::Api(Resize(None, Some(wide))));
+        ops.push(Op::Api(CarriageReturn));
+        for _ in 0..(wide / 8 + 4) {
+            ops.push(Op::Api(Tab));
+        }
+        v.push(Cand { ops });
+    }
     // HTS at the pending-wrap column, then HT from the left
     v.push(Cand { ops: vec![Op::Api(CursorToColumn(Some(c))), Op::Api(Draw("p".into())), Op::Api(SetTabStop), Op::Api(CarriageReturn), Op::Api(Tab), Op::Api(Tab), Op::Api(Tab)] });
     v.push(Cand { ops: vec![Op::Feed("\x1bH\r\t\t\x1b[g\r\t\x1b[3g\r\t".into())] });
@@ -1148,7 +1182,8 @@ pub static C18: StepCheck = StepCheck {
     id: "C18",
     rule: "per-step Hoare monitor: cursor after HT and stop set after HTS/TBC vs the closed form (nearest stop strictly right, else last column, never beyond; HTS adds the cursor column, TBC 0/absent removes it, 3 clears, others nothing), everything else unchanged; HTS/TBC sequences are followed by an HT walk across the row so the stop set is also observed through behaviour; width changes (resize, DECCOLM) between setting and using a stop.",
     required: &["step-judged", "pending-wrap", "defaults"],
-    owns: |c, _| if c.owner() == "C18" { Own::Full } else { Own::No },
+    // only HTS / TBC / RIS may edit the stop set: every other call is judged for that component
+    owns: |c, _| if c.owner() == "C18" { Own::Full } else if matches!(c, Call::Reset) { Own::No } else { Own::Only(&["tabstops"]) },
     profile: || Profile { tabs: 60, pending_wrap: 25, ..Default::default() },
     cands: c18_cands,
     enumerated: c18_enum,
